@@ -259,6 +259,8 @@ def build_cases(tier):
     add(mask=(True, False), nested=True)
     add(mask=(False, True, True), nested=True, R=2)
     add(mask=(True, False, True), sampler_map=(0, 1, 1))
+    add(mask=(True, False, True), sampler_map=(0, 1, 0))          # a sampler whose variables are all fixed
+    add(mask=(False, True, False), sampler_map=(0, 1, 0), R=2)
     add(mask=(True, True, False), sampler_map=(1, 0, 0), boundary="mirror_both")
     add(mask=(True, False), batch=True)
     add(mask=(False, True, False), batch=True, R=2)
